@@ -329,7 +329,7 @@ func (fr *Frame) convertTo(s *State, v *Val, t types.Type) *Val {
 	if types.Identical(v.T, t) {
 		return v
 	}
-	return &Val{T: t, S: v.S, Fn: v.Fn, Const: v.Const, Dyn: v.Dyn}
+	return &Val{T: t, S: v.S, Fn: v.Fn, Const: v.Const, Dyn: v.Dyn, Sub: v.Sub}
 }
 
 // havocEverything forgets the whole heap and all mutable globals; global invariants hold again afterwards
